@@ -313,6 +313,63 @@ def group_shape_sweep(ctx, root):
                 ctx.count('group_shape_strings')
 
 
+def rawchars_value_sweep(ctx, root):
+    """Every octal escape value 0..0o777 and every hex escape value, alone / inside a bracket / as a range end, str and bytes,
+    under RAWCHARS: a complete escape never raises (values above the type's range fold or are documented errors)."""
+    idx = 0
+    for v in list(range(0, 0o1000, 1)):
+        for form in ('\\%o', '[\\%o]', 'a\\%03o*', '[a-\\%o]'):
+            idx += 1
+            if ctx.quick and v % 7 and v not in (0o377, 0o400, 0o777, 0o501, 0o200, 0o177):
+                continue
+            if not ctx.mine(idx):
+                continue
+            text = form % v
+            for as_bytes in (False, True):
+                with ctx.case(label=(text, as_bytes)):
+                    exercise(ctx, text, ('RAWCHARS', 'EXTMATCH'), root, as_bytes)
+            ctx.count('rawchars_value_strings')
+    for text in ['\\U%08X' % v for v in (0, 0x41, 0xD800, 0xDFFF, 0xFFFF, 0x10FFFF, 0x110000, 0x7FFFFFFF, 0x80000000, 0xFFFFFFFF, 0xFFFFFFFE)] + \
+            ['[\\U%08x]' % v for v in (0x10FFFF, 0x110000, 0x80000000, 0xFFFFFFFF)] + ['\\u%04X' % v for v in (0, 0xD800, 0xDC00, 0xFFFF)]:
+        idx += 1
+        if not ctx.mine(idx):
+            continue
+        for as_bytes in (False, True):
+            with ctx.case(label=(text, as_bytes)):
+                exercise(ctx, text, ('RAWCHARS',), root, as_bytes)
+        ctx.count('rawchars_value_strings')
+    for v in range(256):
+        idx += 1
+        if not ctx.mine(idx):
+            continue
+        for form in ('\\x%02x', '[\\x%02X-\\xff]'):
+            text = form % v
+            for as_bytes in (False, True):
+                with ctx.case(label=(text, as_bytes)):
+                    exercise(ctx, text, ('RAWCHARS',), root, as_bytes)
+            ctx.count('rawchars_value_strings')
+
+
+def tilde_sweep(ctx, root):
+    """User-folder forms whose name part is unusual (null, non-ASCII, surrogate, magic characters, unknown user)."""
+    texts = ['~', '~/a', '~root', '~nosuchuser-zz', '~a\x00b', '~\xe9', '~\xff/x', '~*', '~[r]oot', '~root*', '!~', '!~/a', '-~root', '~~', '~/', '~\\',
+             '~a/../b', '~{root,x}', '~root|~', '~\x00', '\\~', '[~]', '~\n']
+    fsets = [('GLOBTILDE',), ('GLOBTILDE', 'REALPATH'), ('GLOBTILDE', 'REALPATH', 'NEGATE'), ('GLOBTILDE', 'REALPATH', 'NEGATE', 'MINUSNEGATE'),
+             ('GLOBTILDE', 'REALPATH', 'BRACE', 'SPLIT'), ('GLOBTILDE', 'REALPATH', 'FORCEWIN'), ('GLOBTILDE', 'REALPATH', 'RAWCHARS'),
+             ('GLOBTILDE', 'REALPATH', 'MATCHBASE', 'GLOBSTAR'), ('GLOBTILDE', 'NODIR', 'REALPATH')]
+    idx = 0
+    for text in texts:
+        for fnames in fsets:
+            idx += 1
+            if not ctx.mine(idx):
+                continue
+            for as_bytes in (False, True):
+                with ctx.case(label=(text, fnames, as_bytes)):
+                    exercise(ctx, text, fnames, root, as_bytes)
+                ctx.mark_nontrivial((text, fnames, as_bytes))
+            ctx.count('tilde_strings')
+
+
 def strings(alpha, n):
     for tup in itertools.product(alpha, repeat=n):
         yield ''.join(tup)
@@ -345,6 +402,8 @@ def run(ctx):
         bracket_sweep(ctx, 5 if quick else 6)
         win_prefix_sweep(ctx, root)
         group_shape_sweep(ctx, root)
+        rawchars_value_sweep(ctx, root)
+        tilde_sweep(ctx, root)
 
         def exhaustive():
             idx = 0
@@ -367,7 +426,7 @@ def run(ctx):
             # random long strings, RAWCHARS pieces, nested groups (bounded nesting 8) and token mutations of valid patterns
             k = 0
             limit = 150 if quick else 10 ** 9
-            pieces = list(ALPHA_A + ALPHA_B) + ['\\x41', '\\x4', '\\101', '\\u0041', '\\U00000041', '\\U00110000', '\\N{DIGIT ONE}',
+            pieces = list(ALPHA_A + ALPHA_B) + ['\\UFFFFFFFF', '\\U80000000', '\\U7FFFFFFF', '\\U0010FFFF', '\\uFFFF', '\\uD800', '\\400', '\\777', '\\501', '\\377', '\\xff', '\\x80', '\\0', '\\8', '\\x41', '\\x4', '\\101', '\\u0041', '\\U00000041', '\\U00110000', '\\N{DIGIT ONE}',
                                               '\\N{', '\\N{NOPE}', '@(', '!(', '*(', '+(', '?(', '[!', '[:alpha:]', '[[:alpha:]]',
                                               '**', '***', '//', '{a,b}', '{1..3}', '~', '-', 'b', '.', '..',
                                               # text that looks like regular-expression syntax must stay plain text
